@@ -219,3 +219,16 @@ BZ("sourceTerm", path="BoltzmannSolver.buildLinearEquations",
            ("dMsqdChi", R), ("statistics", R), ("dxidchiIn", R), ("dpzdrzIn", R), ("dppdrpIn", R)],
    ret="RxRxRxRxR", first="gammaWall", last="source#0", outputs=["source", "momentumWall", "gammaWall", "dchidxi", "drzdpz"], dom=BDOM,
    doc="pointwise source term of the linearised Boltzmann equation and the factors entering the Liouville operator")
+
+# --------------------------------------------------------------------- Integrals
+module("Integrals")
+INT_ENV = {"cls.SMALL_NUMBER": ("const", "1e-100")}
+IDOM_POS = {"x": (0.0, 30.0), "y": (0.01, 6.0)}
+IDOM_NEG = {"x": (-20.0, -6.0), "y": (0.01, 2.3)}
+for cls_, tag in (("JbIntegral", "Jb"), ("JfIntegral", "Jf")):
+    add(Spec(f"{tag}PositiveReal", "Integrals", "PotentialTools/integrals.py", f"{cls_}._integrandPositiveReal",
+             [("x", R), ("y", R)], env=INT_ENV, dom=IDOM_POS))
+    add(Spec(f"{tag}NegativeReal", "Integrals", "PotentialTools/integrals.py", f"{cls_}._integrandNegativeReal",
+             [("x", R), ("y", R)], env=INT_ENV, dom=IDOM_NEG))
+    add(Spec(f"{tag}NegativeImaginary", "Integrals", "PotentialTools/integrals.py", f"{cls_}._integrandNegativeImaginary",
+             [("x", R), ("y", R)], env=INT_ENV, dom=IDOM_NEG))
